@@ -423,7 +423,8 @@ fn run_hist<C: RangeCombo>(segs: &[Vec<&str>]) -> String {
     }
     match (kind, init.as_slice()) {
         ("range", ["new"]) => {
-            enc = Some(RangeEncoder::new());
+            // `new()` and `Default::default()` must be the same encoder (alternate by line length)
+            enc = Some(if segs.iter().map(|x| x.len()).sum::<usize>() % 2 == 0 { RangeEncoder::new() } else { Default::default() });
             spec_ok = true;
         }
         ("range", ["with", ws]) => {
